@@ -146,14 +146,18 @@ impl<'a, R: BufRead> LogCat2DltMsgIterator<'a, R> {
 
         let mut payload: Vec<u8> = SERVICE_ID_GET_LOG_INFO.to_ne_bytes().into();
         let apid_buf = apid.as_buf();
+        // a dlt msg is limited to a len of u16::MAX (15 bytes are used before the tag):
+        let tag_bytes = tag.as_bytes();
+        let tag_bytes =
+            &tag_bytes[..tag_bytes.len().min(u16::MAX as usize - self.len_wo_payload as usize - 15)];
         payload.extend(
             [7u8]
                 .into_iter()
                 .chain(1u16.to_ne_bytes()) // 1 app id, CAN plugin expects == 1
                 .chain(apid_buf.iter().copied())
                 .chain(0u16.to_ne_bytes()) // 0 ctx ids
-                .chain((tag.len() as u16).to_ne_bytes()) // len of apid desc
-                .chain(tag.as_bytes().iter().copied()),
+                .chain((tag_bytes.len() as u16).to_ne_bytes()) // len of apid desc
+                .chain(tag_bytes.iter().copied()),
         );
         // return a DltMessage with the LOG INFO APID incl. the BusMapping name
         let index = self.index;
